@@ -191,8 +191,20 @@ def build(spec, register=True):
     src = ('class %s:\n  """doc of %s"""\n  def __init__(self, c=0):\n    self.c = c\n'
            '  def %s(self%s):\n    VF_rec(VF_PID, %s)\n    return ["ret", VF_PID, next(VF_ctr)]\n' %
            (cname, cname, p.name, sp, recv))
-    exec(src, g)  # pylint: disable=exec-used
-    p.cls = g[cname]
+    # where the class is defined: at module level, nested in another class, or local to a function (its methods' qualified names then
+    # read Outer.K.m / make.<locals>.K.m)
+    nesting = spec.get('cls_nesting', ('module', 'class', 'function')[n % 3])
+    if nesting == 'class':
+      src = 'class VF_Outer:\n' + ''.join('  ' + l + '\n' for l in src.splitlines())
+      exec(src, g)  # pylint: disable=exec-used
+      p.cls = g['VF_Outer'].__dict__[cname]
+    elif nesting == 'function':
+      src = 'def VF_make():\n' + ''.join('  ' + l + '\n' for l in src.splitlines()) + '  return %s\n' % cname
+      exec(src, g)  # pylint: disable=exec-used
+      p.cls = g['VF_make']()
+    else:
+      exec(src, g)  # pylint: disable=exec-used
+      p.cls = g[cname]
     p.original = p.cls.__dict__[p.name]
   else:
     raise ValueError(shape)
